@@ -1,14 +1,531 @@
 import AslModel.FileText
-namespace C17
-open AslModel.FileText
+import AslProofs.FileText
+import AslProps.C08
+/-!
+# C17 — File and TextFile return exactly the bytes, text and lines that were written
 
-theorem copy_exact (b : Nat) (src : Bytes) : copyLoop b src = src := by
-  fun_induction copyLoop b src with
-  | case1 src blk h ih => rw [ih]; exact List.take_append_drop _ _
-  | case2 src blk h =>
-    simp only [blk] at *
-    rw [List.take_of_length_le]
-    simp only [List.length_take] at h
+Property theorems only (model: `AslModel/FileText.lean`, run by `Driver/C17.lean` against the real library
+on every check; helper lemmas: `AslProofs/FileText.lean`; UTF-16 → UTF-8: C08's `utf16_utf8_std`).
+
+Specifications are written from the abstract semantics, not from the code:
+* a text's lines are what splitting at LF gives, each piece that is followed by LF losing one CR;
+* a file is a byte string: truncating writers replace it, appenders extend it, an update writer
+  overwrites from offset 0; readers return prefixes of it;
+* UTF-8 is Lean core's encoder, UTF-16 is Unicode D91 (both as in `AslProps/C08.lean`), serialised
+  little- or big-endian behind the byte-order mark FF FE / FE FF; the UTF-8 signature is EF BB BF;
+* a copy leaves the source bytes at the destination; a move also removes the source.
+-/
+namespace C17
+open AslModel.FileText AslProofs.FileText Gen.File
+
+/-! ## specifications -/
+namespace Spec
+
+/-- put `c` in front of the first piece -/
+def consHead (c : UInt8) : List Bytes → List Bytes
+  | [] => [[c]]
+  | h :: r => (c :: h) :: r
+
+/-- the pieces between the LF bytes (always at least one piece) -/
+def splitLF : Bytes → List Bytes
+  | [] => [[]]
+  | c :: t => if c = 10 then [] :: splitLF t else consHead c (splitLF t)
+
+/-- remove one trailing CR -/
+def stripCR (l : Bytes) : Bytes := if l.getLast? = some 13 then l.dropLast else l
+
+/-- apply `f` to every element but the last -/
+def mapInit {α : Type} (f : α → α) : List α → List α
+  | [] => []
+  | [x] => [x]
+  | x :: y :: t => f x :: mapInit f (y :: t)
+
+/-- the lines of a text: split at LF, one CR removed before each LF -/
+def lines (t : Bytes) : List Bytes := mapInit stripCR (splitLF t)
+
+end Spec
+
+/-! ## the specification means what it should on concrete texts -/
+
+-- "a\r\n\r\nb\r" → "a", "", "b\r"   (the last piece is not followed by LF: its CR stays)
+example : Spec.lines [97, 13, 10, 13, 10, 98, 13] = [[97], [], [98, 13]] := by decide
+-- "" → one empty line; "a\n" → "a", ""; "\r\r\n" → "\r", ""
+example : Spec.lines [] = [[]] := by decide
+example : Spec.lines [97, 10] = [[97], []] := by decide
+example : Spec.lines [13, 13, 10] = [[13], []] := by decide
+
+/-! ## lines() and readLine() -/
+
+theorem splitLF_ne_nil (t : Bytes) : Spec.splitLF t ≠ [] := by
+  cases t with
+  | nil => simp [Spec.splitLF]
+  | cons c t =>
+    simp only [Spec.splitLF]
+    split
+    · simp
+    · cases Spec.splitLF t <;> simp [Spec.consHead]
+
+theorem stripCR_reverse (racc : Bytes) : Spec.stripCR racc.reverse = (dropCR racc).reverse := by
+  cases racc with
+  | nil => simp [Spec.stripCR, dropCR]
+  | cons y t =>
+    simp only [Spec.stripCR, dropCR, List.reverse_cons, List.getLast?_append, List.getLast?_singleton,
+      Option.some_or, Option.some.injEq, List.dropLast_concat]
+    split <;> simp
+
+/-- prepend a partial line to the first piece -/
+def prependHead (x : Bytes) : List Bytes → List Bytes
+  | [] => [x]
+  | h :: r => (x ++ h) :: r
+
+/-- the byte-by-byte description of `lines()` is the split-at-LF specification -/
+theorem linesRef_spec (racc rest : Bytes) :
+    linesRef racc rest = Spec.mapInit Spec.stripCR (prependHead racc.reverse (Spec.splitLF rest)) := by
+  induction rest generalizing racc with
+  | nil => simp [linesRef, Spec.splitLF, prependHead, Spec.mapInit]
+  | cons c t ih =>
+    by_cases hc : c = 10
+    · subst hc
+      have hne := splitLF_ne_nil t
+      simp only [linesRef, Spec.splitLF, if_true, prependHead, List.append_nil]
+      rw [ih []]
+      cases hs : Spec.splitLF t with
+      | nil => exact absurd hs hne
+      | cons h r =>
+        simp only [prependHead, List.reverse_nil, List.nil_append, Spec.mapInit]
+        rw [stripCR_reverse]
+    · simp only [linesRef, Spec.splitLF, hc, if_false]
+      rw [ih (c :: racc)]
+      cases hs : Spec.splitLF t with
+      | nil => exact absurd hs (splitLF_ne_nil t)
+      | cons h r => simp [prependHead, Spec.consHead]
+
+/-- **lines_spec**: for every content and every `fgets` chunk size ≥ 2 (255 in the source), `lines()` is exactly
+    the sequence obtained by splitting at LF and removing one CR before each LF — any line length, with
+    or without a final newline, the empty file included. -/
+theorem lines_spec (chunk : Nat) (_h : 2 ≤ chunk) (content : Bytes) :
+    lines chunk content = Spec.lines content := by
+  rw [lines_eq, linesRef_spec]
+  unfold Spec.lines
+  cases hs : Spec.splitLF content with
+  | nil => exact absurd hs (splitLF_ne_nil content)
+  | cons h r => simp [prependHead]
+
+/-- **open_modes** (G obligation): the mode strings the current source passes to `fopen` mean read /
+    create-truncate / create-append / update-existing, with and without the `TEXT` flag -/
+theorem open_modes (t : Bool) :
+    stdioMode (if t then fopenText .read else fopenBin .read) = some smRead ∧
+    stdioMode (if t then fopenText .write else fopenBin .write) = some smWrite ∧
+    stdioMode (if t then fopenText .append else fopenBin .append) = some smAppend ∧
+    stdioMode (if t then fopenText .rw else fopenBin .rw) = some smUpdate :=
+  AslProofs.FileText.open_modes t
+
+/-- the chunk of the current source satisfies the hypothesis of `lines_spec`, and `TextFile(path).lines()`
+    of an existing file is the specification of its content -/
+theorem lines_of_file (d : Disk) (p : Nat) (c : Bytes) (h : d p = some c) : linesOf d p = Spec.lines c := by
+  unfold linesOf
+  rw [openH_read d p true c h]
+  have := lines_spec readLineChunk (by decide) c
+  unfold lines at this
+  exact this
+
+/-- **readLine_seq** (a line that ends in LF): the call returns `true`, leaves the line without its LF and
+    without one CR before it, and the stream just behind the LF -/
+theorem readLine_lf (chunk : Nat) (_h : 2 ≤ chunk) (pre post : Bytes) (e : Bool) (hpre : ∀ b ∈ pre, b ≠ 10) :
+    readLine chunk ⟨pre ++ 10 :: post, e⟩ = ((Spec.stripCR pre, true), ⟨post, e⟩) := by
+  unfold readLine
+  rw [readLineLoop_eq, rlSpec_lf _ _ _ _ hpre]
+  simp only [List.append_nil]
+  rw [← stripCR_reverse, List.reverse_reverse]
+
+/-- **readLine_seq** (the bytes after the last LF): the call returns `false`, leaves those bytes in the
+    string, and the end-of-file indicator is set — so `while (!end())` loops stop after it -/
+theorem readLine_last (chunk : Nat) (_h : 2 ≤ chunk) (rest : Bytes) (e : Bool) (hrest : ∀ b ∈ rest, b ≠ 10) :
+    readLine chunk ⟨rest, e⟩ = ((rest, false), ⟨[], true⟩) := by
+  unfold readLine
+  rw [readLineLoop_eq, rlSpec_nolf _ _ _ hrest]
+  simp
+
+-- hypotheses are satisfiable / the statements are not vacuous: a 3-byte chunk on "ab\r\ncd"
+example : readLine 3 ⟨[97, 98, 13, 10, 99, 100], false⟩ = (([97, 98], true), ⟨[99, 100], false⟩) := by
+  have := readLine_lf 3 (by decide) [97, 98, 13] [99, 100] false (by decide)
+  simpa [Spec.stripCR] using this
+example : lines 2 [97, 98, 13, 10, 99, 100] = [[97, 98], [99, 100]] := by
+  rw [lines_spec 2 (by decide)]; decide
+
+/-! ## Directory::copy block loop -/
+
+/-- **copy_exact**: the block loop writes exactly the source bytes, for every size and every block size ≥ 1
+    (a size that is a multiple of the block takes one extra, empty, read) -/
+theorem copy_exact (block : Nat) (_h : 1 ≤ block) (src : Bytes) : copyLoop (block - 1) src = src :=
+  copyLoop_id _ _
+
+/-! ## text(): plain, UTF-8 signature, UTF-16 byte-order marks -/
+
+/-- **text_utf8**: a file that does not begin with one of the three byte-order marks is returned unchanged
+    (any bytes, any size below 2 GiB, the empty file included) -/
+theorem text_utf8 (c : Bytes) (hlen : c.length < 2147483648)
+    (h1 : ¬ [0xFF, 0xFE] <+: c) (h2 : ¬ [0xFE, 0xFF] <+: c) (h3 : ¬ [0xEF, 0xBB, 0xBF] <+: c) : text c = some c := by
+  unfold text
+  simp only [size_mask _ hlen]
+  split
+  · match c with
+    | [] => simp
+    | [_] => simp
+    | a :: b :: body =>
+      have e1 : ¬ (a = bom1.1 ∧ b = bom1.2) := by
+        rintro ⟨rfl, rfl⟩; exact h1 ⟨body, rfl⟩
+      have e2 : ¬ (a = bom2.1 ∧ b = bom2.2) := by
+        rintro ⟨rfl, rfl⟩; exact h2 ⟨body, rfl⟩
+      have e3 : ¬ (a = bom3.1 ∧ b = bom3.2.1 ∧ 3 ≤ (a :: b :: body).length ∧ body.head? = some bom3.2.2) := by
+        rintro ⟨rfl, rfl, -, hh⟩
+        cases body with
+        | nil => simp at hh
+        | cons x t =>
+          simp only [List.head?_cons, Option.some.injEq] at hh
+          subst hh
+          exact h3 ⟨t, rfl⟩
+      simp only [if_neg e1, if_neg e2, if_neg e3, List.take_length]
+  · simp
+
+/-- **text_bom_utf8**: behind the UTF-8 signature EF BB BF the rest of the file is returned unchanged -/
+theorem text_bom_utf8 (t : Bytes) (hlen : t.length + 3 < 2147483648) : text (0xEF :: 0xBB :: 0xBF :: t) = some t := by
+  unfold text
+  have hl : (0xEF :: 0xBB :: 0xBF :: t : Bytes).length < 2147483648 := by simp only [List.length_cons]; omega
+  simp only [size_mask _ hl]
+  have h2 : 2 ≤ (0xEF :: 0xBB :: 0xBF :: t : Bytes).length := by simp only [List.length_cons]; omega
+  have e1 : ¬ ((0xEF : UInt8) = bom1.1 ∧ (0xBB : UInt8) = bom1.2) := by decide
+  have e2 : ¬ ((0xEF : UInt8) = bom2.1 ∧ (0xBB : UInt8) = bom2.2) := by decide
+  have e3 : (0xEF : UInt8) = bom3.1 ∧ (0xBB : UInt8) = bom3.2.1 ∧ 3 ≤ (0xEF :: 0xBB :: 0xBF :: t : Bytes).length ∧
+      (0xBF :: t : Bytes).head? = some bom3.2.2 := by
+    refine ⟨by decide, by decide, ?_, ?_⟩
+    · simp only [List.length_cons]; omega
+    · simp only [List.head?_cons]; decide
+  simp only [if_pos h2, if_neg e1, if_neg e2, if_pos e3, List.tail_cons]
+  rw [List.take_of_length_le (by simp only [List.length_cons]; omega)]
+
+namespace Spec
+/-- the text contains CR immediately followed by LF -/
+def HasCRLF (cs : List Char) : Prop := ∃ pre post, cs = pre ++ Char.ofNat 13 :: Char.ofNat 10 :: post
+
+/-- a UTF-16 file: byte-order mark, then every unit low byte first (LE) or high byte first (BE) -/
+def utf16leFile (cs : List Char) : Bytes := [0xFF, 0xFE] ++ le16 (C08.Std.utf16 cs)
+def utf16beFile (cs : List Char) : Bytes := [0xFE, 0xFF] ++ be16 (C08.Std.utf16 cs)
+end Spec
+
+theorem utf16_lt (cs : List Char) : ∀ u ∈ C08.Std.utf16 cs, u < 65536 := by
+  intro u hu
+  simp only [C08.Std.utf16, List.mem_flatMap] at hu
+  obtain ⟨c, -, hu⟩ := hu
+  have hv : c.toNat < 0x110000 := by
+    have := c.valid
+    simp only [Char.toNat, UInt32.isValidChar, Nat.isValidChar] at *
     omega
+  unfold C08.Std.utf16Char at hu
+  split at hu
+  · simp only [List.mem_singleton] at hu; omega
+  · simp only [List.mem_cons, List.not_mem_nil, or_false] at hu
+    rcases hu with rfl | rfl <;> omega
+
+theorem noCRLF16_utf16 (cs : List Char) (p : Nat)
+    (hp : p = 13 → ∀ c t, cs = c :: t → c.toNat ≠ 10) (h : ¬ Spec.HasCRLF cs) :
+    noCRLF16 p (C08.Std.utf16 cs) = true := by
+  induction cs generalizing p with
+  | nil => simp [C08.Std.utf16, noCRLF16]
+  | cons c t ih =>
+    have ht : ¬ Spec.HasCRLF t := by
+      rintro ⟨pre, post, rfl⟩
+      exact h ⟨c :: pre, post, rfl⟩
+    simp only [C08.Std.utf16, List.flatMap_cons] at *
+    unfold C08.Std.utf16Char
+    split
+    · rename_i hb
+      simp only [List.singleton_append, noCRLF16, Bool.and_eq_true, Bool.not_eq_true', Bool.and_eq_false_iff,
+        beq_eq_false_iff_ne]
+      refine ⟨?_, ?_⟩
+      · by_cases h13 : p = 13
+        · right; exact hp h13 c t rfl
+        · left; exact h13
+      · apply ih c.toNat _ ht
+        intro h13 c2 t2 e2 h10
+        subst e2
+        apply h
+        refine ⟨[], t2, ?_⟩
+        rw [char_eq_of_toNat h13 (by omega), char_eq_of_toNat h10 (by omega)]
+        rfl
+    · rename_i hb
+      simp only [List.cons_append, List.nil_append, noCRLF16, Bool.and_eq_true, Bool.not_eq_true',
+        Bool.and_eq_false_iff, beq_eq_false_iff_ne]
+      refine ⟨?_, ?_, ?_⟩
+      · right; omega
+      · left; omega
+      · apply ih _ _ ht
+        intro h13
+        omega
+
+theorem hasCRLF_head (cs : List Char) : (0 : Nat) = 13 → ∀ c t, cs = c :: t → c.toNat ≠ 10 := by
+  intro h; omega
+
+/-- the full statement of the property for UTF-16 files: every NUL-free scalar-value sequence behind a
+    UTF-16 byte-order mark comes back as its UTF-8 encoding -/
+def text_utf16_full : Prop :=
+  ∀ cs : List Char, C08.NoNul cs → (Spec.utf16leFile cs).length < 2147483648 →
+    text (Spec.utf16leFile cs) = some (C08.Std.utf8 cs) ∧ text (Spec.utf16beFile cs) = some (C08.Std.utf8 cs)
+
+/-- **text_utf16_partial**: the full statement holds for every text *without an adjacent CR LF* -/
+theorem text_utf16_partial (cs : List Char) (h0 : C08.NoNul cs) (hcr : ¬ Spec.HasCRLF cs)
+    (hlen : (Spec.utf16leFile cs).length < 2147483648) :
+    text (Spec.utf16leFile cs) = some (C08.Std.utf8 cs) ∧ text (Spec.utf16beFile cs) = some (C08.Std.utf8 cs) := by
+  have hcr16 := noCRLF16_utf16 cs 0 (hasCRLF_head cs) hcr
+  have hlt := utf16_lt cs
+  have hle : (le16 (C08.Std.utf16 cs)).length = (be16 (C08.Std.utf16 cs)).length := by
+    simp [le16, be16, List.length_flatMap]
+  unfold Spec.utf16leFile at hlen
+  simp only [List.length_append, List.length_cons, List.length_nil] at hlen
+  constructor
+  · unfold Spec.utf16leFile
+    rw [text_utf16le_aux _ hlt hcr16 (by omega)]
+    exact C08.utf16_utf8_std cs h0
+  · unfold Spec.utf16beFile
+    rw [text_utf16be_aux _ hlt hcr16 (by omega)]
+    exact C08.utf16_utf8_std cs h0
+
+/-- **text_utf16_crlf_counterexample**: the two-character text CR LF in UTF-16LE (FF FE 0D 00 0A 00) comes
+    back as LF alone — `TextFile::text()` folds CR LF while decoding UTF-16 (known finding utf16-crlf-fold) -/
+theorem text_utf16_crlf_counterexample : ¬ text_utf16_full := by
+  intro h
+  have hn : C08.NoNul [Char.ofNat 13, Char.ofNat 10] := by
+    intro c hc
+    simp only [List.mem_cons, List.not_mem_nil, or_false] at hc
+    rcases hc with rfl | rfl <;> decide
+  have h1 := (h [Char.ofNat 13, Char.ofNat 10] hn (by decide)).1
+  have h2 : text (Spec.utf16leFile [Char.ofNat 13, Char.ofNat 10]) = some [10] := by decide
+  rw [h2] at h1
+  revert h1
+  decide
+
+/-- **text_total**: `text()` never reads outside its buffers, whatever the bytes of the file (odd lengths,
+    lone surrogates, NUL units, truncated marks) -/
+theorem text_total (c : Bytes) : ∃ t, text c = some t := by
+  have hw : ∀ a : List Nat, ∃ t, wideToString a = some t := by
+    intro a
+    obtain ⟨_, _, ⟨o, ho, _⟩⟩ := C08.utf_safe_constructors [] 0 (a.map Int.ofNat ++ [0]) (by simp [AslProofs.Utf.hasZero])
+    exact ⟨o, ho⟩
+  unfold text
+  dsimp only
+  repeat' split
+  all_goals first | exact hw _ | exact ⟨_, rfl⟩
+
+/-! ## the store: histories of writers on one path -/
+
+namespace Spec
+
+/-- one writer on the path: the three one-statement forms, or an explicitly opened object
+    (`File` / `TextFile`, any mode) through which some byte strings are written (`write`, `<<`) before it is closed -/
+inductive Tx where
+  | put (bs : Bytes)
+  | tput (bs : Bytes)
+  | tappend (bs : Bytes)
+  | session (isText : Bool) (mode : OpenMode) (chunks : List Bytes)
+
+/-- `bs` written over the beginning of `c` -/
+def overwrite0 (c bs : Bytes) : Bytes := bs ++ c.drop bs.length
+
+/-- the reference store: a file is a byte string (`none`: no file); truncating writers replace it, appenders
+    extend it (creating it when missing), an update writer needs the file and overwrites from offset 0,
+    nothing can be written through a reader -/
+def store (f : Option Bytes) : Tx → Option Bytes
+  | .put bs => some bs
+  | .tput bs => some bs
+  | .tappend bs => some (f.getD [] ++ bs)
+  | .session _ .write chunks => some chunks.flatten
+  | .session _ .append chunks => some (f.getD [] ++ chunks.flatten)
+  | .session _ .rw chunks => f.map (overwrite0 · chunks.flatten)
+  | .session _ .read _ => f
+
+end Spec
+
+/-- the model: what the library calls of one writer do to the disk -/
+def runTx (d : Disk) (p : Nat) : Spec.Tx → Disk
+  | .put bs => (put d p bs).2
+  | .tput bs => (tput d p .write bs).2
+  | .tappend bs => (tput d p .append bs).2
+  | .session t m chunks =>
+    match openH d p t m with
+    | (none, d') => d'
+    | (some h, d') => (writeAll d' h chunks).1
+
+/-- one writer: the model's disk at the path is what the reference store says; other paths are untouched -/
+theorem runTx_store (d : Disk) (p : Nat) (tx : Spec.Tx) :
+    (runTx d p tx) p = Spec.store (d p) tx ∧ ∀ q, q ≠ p → (runTx d p tx) q = d q := by
+  have wr : ∀ (t : Bool) (chunks : List Bytes),
+      (writeAll (d.set p (some [])) { path := p, isText := t, mode := .write, sm := smWrite, all := [], rs := ⟨[], false⟩, pos := 0 } chunks).1 p
+        = some chunks.flatten ∧
+      ∀ q, q ≠ p → (writeAll (d.set p (some [])) { path := p, isText := t, mode := .write, sm := smWrite, all := [], rs := ⟨[], false⟩, pos := 0 } chunks).1 q = d q := by
+    intro t chunks
+    have := writeAll_seq chunks (d.set p (some [])) { path := p, isText := t, mode := .write, sm := smWrite, all := [], rs := ⟨[], false⟩, pos := 0 }
+      [] [] rfl rfl (by simp [set_same]) rfl
+    simp only [List.nil_append, List.drop_nil, List.append_nil] at this
+    exact ⟨this.1, fun q hq => by rw [this.2 q hq, set_other _ _ _ _ hq]⟩
+  have ap : ∀ (t : Bool) (chunks : List Bytes),
+      (match openH d p t .append with | (none, d') => d' | (some h, d') => (writeAll d' h chunks).1) p
+        = some ((d p).getD [] ++ chunks.flatten) ∧
+      ∀ q, q ≠ p → (match openH d p t .append with | (none, d') => d' | (some h, d') => (writeAll d' h chunks).1) q = d q := by
+    intro t chunks
+    obtain ⟨h, d', ho, hpath, hsm, hd', hoth⟩ := openH_append d p t
+    simp only [ho]
+    have := writeAll_append chunks d' h _ (by rw [hsm]; rfl) (by rw [hsm]; rfl) (by rw [hpath]; exact hd')
+    rw [hpath] at this
+    exact ⟨this.1, fun q hq => by rw [this.2 q hq, hoth q hq]⟩
+  cases tx with
+  | put bs =>
+    have := wr false [bs]
+    simp only [runTx, put, openH_write, writeAll, List.flatten_cons, List.flatten_nil, List.append_nil] at *
+    exact this
+  | tput bs =>
+    have := wr true [bs]
+    simp only [runTx, tput, openH_write, writeAll, List.flatten_cons, List.flatten_nil, List.append_nil] at *
+    exact this
+  | tappend bs =>
+    have := ap true [bs]
+    simp only [runTx, tput, Spec.store] at *
+    revert this
+    cases openH d p true .append with
+    | mk oh d' =>
+      cases oh with
+      | none => simp
+      | some h => simp [writeAll]
+  | session t m chunks =>
+    cases m with
+    | write =>
+      simp only [runTx, openH_write, Spec.store]
+      exact wr t chunks
+    | append =>
+      simp only [runTx, Spec.store]
+      exact ap t chunks
+    | read =>
+      simp only [runTx, Spec.store]
+      cases hp : d p with
+      | none => rw [openH_read_missing d p t hp]; simp [hp]
+      | some c =>
+        rw [openH_read d p t c hp]
+        simp only
+        rw [writeAll_reader _ _ _ rfl]
+        simp [hp]
+    | rw =>
+      simp only [runTx, Spec.store]
+      cases hp : d p with
+      | none => rw [openH_rw_missing d p t hp]; simp [hp]
+      | some c =>
+        obtain ⟨h, ho, hpath, hsm, hpos⟩ := openH_rw d p t c hp
+        rw [ho]
+        have := writeAll_seq chunks d h c [] (by rw [hsm]; rfl) (by rw [hsm]; rfl) (by rw [hpath]; simpa using hp) (by simpa using hpos)
+        rw [hpath] at this
+        simp only [List.nil_append] at this
+        simp only [Option.map_some, Spec.overwrite0]
+        exact this
+
+/-- **store_refines**: after any sequence of writers on one path (one-statement `put` / `write` / `append`,
+    objects opened in any mode, written through any number of times, closed and reopened), the file holds
+    exactly what the reference store predicts, and no other path changed -/
+theorem store_refines (hist : List Spec.Tx) (d : Disk) (p : Nat) :
+    (hist.foldl (fun d tx => runTx d p tx) d) p = hist.foldl Spec.store (d p) ∧
+    ∀ q, q ≠ p → (hist.foldl (fun d tx => runTx d p tx) d) q = d q := by
+  induction hist generalizing d with
+  | nil => simp
+  | cons tx t ih =>
+    simp only [List.foldl_cons]
+    have h1 := runTx_store d p tx
+    have h2 := ih (runTx d p tx)
+    rw [h1.1] at h2
+    exact ⟨h2.1, fun q hq => by rw [h2.2 q hq, h1.2 q hq]⟩
+
+/-! ## reading back -/
+
+/-- **read_back**: `content()`, `size()`, `firstBytes(n)`, `lines()` and `text()` of an existing file are
+    functions of its byte string alone: all of it, its length, its first `n` bytes -/
+theorem read_back (d : Disk) (p : Nat) (c : Bytes) (h : d p = some c) :
+    content d p = c ∧ size d p = c.length ∧ (∀ n, firstBytes d p n = c.take n) ∧
+    linesOf d p = Spec.lines c ∧ textOf d p = text c := by
+  have hf : ∀ n, firstBytes d p n = c.take n := by
+    intro n
+    simp [firstBytes, openH_read d p false c h, hread, smRead, fread]
+  refine ⟨?_, ?_, hf, lines_of_file d p c h, ?_⟩
+  · simp [content, h, hf]
+  · simp [size, h]
+  · simp [textOf, openH_read d p true c h]
+
+/-- a path without a file: empty content, size −1, no lines, empty text -/
+theorem read_missing (d : Disk) (p : Nat) (h : d p = none) :
+    content d p = [] ∧ size d p = -1 ∧ (∀ n, firstBytes d p n = []) ∧ linesOf d p = [] ∧ textOf d p = some [] := by
+  refine ⟨by simp [content, h], by simp [size, h], fun n => by simp [firstBytes, openH_read_missing d p false h],
+    by simp [linesOf, openH_read_missing d p true h], by simp [textOf, openH_read_missing d p true h]⟩
+
+/-- successive `read(p, k)` calls on one open object -/
+def readAll (h : Handle) : List Nat → List Bytes
+  | [] => []
+  | k :: t => (hread h k).1 :: readAll (hread h k).2 t
+
+/-- **read_seq**: successive reads return consecutive pieces of the file: together the first `Σk` bytes -/
+theorem read_seq (ks : List Nat) (h : Handle) (hr : h.sm.canRead = true) :
+    (readAll h ks).flatten = h.rs.rest.take ks.sum := by
+  induction ks generalizing h with
+  | nil => simp [readAll]
+  | cons k t ih =>
+    simp only [readAll, List.flatten_cons, List.sum_cons]
+    rw [ih _ (by simp [hread, hr])]
+    simp [hread, hr, fread, List.take_add]
+
+/-- **written_is_read** (the headline): whatever is written with `File(path).put`, `TextFile(path).put/write`
+    or through a freshly opened writer is what `content()` returns afterwards, and `size()` is its length —
+    for every byte string, the empty one included -/
+theorem written_is_read (d : Disk) (p : Nat) (bs : Bytes) (t : Bool) (chunks : List Bytes) :
+    content (runTx d p (.put bs)) p = bs ∧ size (runTx d p (.put bs)) p = bs.length ∧
+    content (runTx d p (.tput bs)) p = bs ∧ size (runTx d p (.tput bs)) p = bs.length ∧
+    content (runTx d p (.session t .write chunks)) p = chunks.flatten ∧
+    size (runTx d p (.session t .write chunks)) p = chunks.flatten.length := by
+  have a := (runTx_store d p (.put bs)).1
+  have b := (runTx_store d p (.tput bs)).1
+  have c := (runTx_store d p (.session t .write chunks)).1
+  simp only [Spec.store] at a b c
+  exact ⟨(read_back _ p _ a).1, (read_back _ p _ a).2.1, (read_back _ p _ b).1, (read_back _ p _ b).2.1,
+    (read_back _ p _ c).1, (read_back _ p _ c).2.1⟩
+
+/-! ## Directory::copy and Directory::move -/
+
+/-- **copy_preserves**: copying an existing file to another path leaves exactly its bytes there (whatever was
+    there before), keeps the source, and reports success -/
+theorem copy_preserves (d : Disk) (src dst : Nat) (c : Bytes) (h : d src = some c) (hne : src ≠ dst) :
+    copy d src dst = (true, d.set dst (some c)) := by
+  have hs : (d.set dst (some [])) src = some c := by rw [set_other _ _ _ _ hne]; exact h
+  simp only [copy, openH_read d src false c h, hne, if_false, openH_write, hs, Option.getD_some]
+  rw [copyLoop_id]
+  simp only [fwrite, smWrite, if_true, Bool.false_eq_true, if_false, set_same, Option.getD_some, overwrite,
+    List.take_nil, List.drop_nil, List.nil_append, List.append_nil, Prod.mk.injEq, true_and]
+  funext q
+  by_cases hq : q = dst <;> simp [Disk.set, hq]
+
+/-- a copy onto itself is refused and leaves the file alone (repaired: it used to truncate the file);
+    a missing source is reported and nothing changes -/
+theorem copy_refusals (d : Disk) (p q : Nat) :
+    (∀ c, d p = some c → copy d p p = (false, d)) ∧ (d p = none → copy d p q = (false, d)) := by
+  refine ⟨fun c h => ?_, fun h => ?_⟩
+  · simp [copy, openH_read d p false c h]
+  · simp [copy, openH_read_missing d p false h]
+
+/-- **move_preserves**: moving an existing file — by `rename`, or across devices by copy + remove — leaves
+    exactly its bytes at the destination, nothing at the source, and reports success -/
+theorem move_preserves (d : Disk) (src dst : Nat) (c : Bytes) (xdev : Bool) (h : d src = some c) (hne : src ≠ dst) :
+    move d src dst xdev = (true, (d.set dst (some c)).set src none) := by
+  cases xdev with
+  | false => simp [move, h, hne]
+  | true =>
+    have hs : (d.set dst (some c)) src = some c := by rw [set_other _ _ _ _ hne]; exact h
+    simp [move, h, copy_preserves d src dst c h hne, remove, hs]
+
+/-- moving a file onto itself on one device changes nothing; a missing source is reported and nothing changes -/
+theorem move_refusals (d : Disk) (p q : Nat) (xdev : Bool) :
+    (∀ c, d p = some c → move d p p false = (true, d)) ∧ (d p = none → move d p q xdev = (false, d)) := by
+  refine ⟨fun c h => by simp [move, h], fun h => by simp [move, h]⟩
 
 end C17
